@@ -313,82 +313,94 @@ func TestC20_RoundTrip(t *testing.T) {
 type c20Reject struct {
 	Stmt string // option statement placed in message M of a file importing the schema
 	Why  string
+	Src  string // if set: the whole source of f.proto instead (Stmt is then only the case's label)
 }
 
 var c20Rejects = []c20Reject{
-	{`option (o.message_cfg).file_only.i = 1;`, "a path component restricted to files (targets) used on a message"},
-	{`option (o.message_cfg).child.file_only.i = 1;`, "a deeper path component restricted to files used on a message"},
-	{`option (o.message_cfg).(o.cfg_ext_file_only).i = 1;`, "an extension path component restricted to files used on a message"},
-	{`option (o.message_cfg) = { file_only { i: 1 } };`, "a literal field restricted to files used on a message"},
-	{`option (o.message_cfg).file_only = { i: 1 };`, "a final path component restricted to files used on a message"},
-	{`option (o.message_cfg) = { I: 1 };`, "field name with wrong capitalisation"},
-	{`option (o.message_cfg) = { S: "x" };`, "field name with wrong capitalisation (string)"},
-	{`option (o.message_cfg) = { G_ { gi: 1 } };`, "unknown group spelling"},
-	{`option (o.message_cfg) = { GRP2 { gi2: 1 } };`, "group type name in the wrong case (upper)"},
-	{`option (o.message_cfg) = { grP2 { gi2: 1 } };`, "group type name in the wrong case (mixed)"},
-	{`option (o.message_cfg) = { GrP2 { gi2: 1 } };`, "group type name in the wrong case (mixed 2)"},
-	{`option (o.message_cfg).G.gi = 1;`, "group named by its type name in an option path"},
-	{`option (o.message_cfg) = { nosuch: 1 };`, "unknown field"},
-	{`option (o.message_cfg) = { [o.nosuch]: 1 };`, "unknown extension in literal"},
-	{`option (o.message_cfg) = { [o.file_i]: 1 };`, "extension of another message in literal"},
-	{`option (o.message_cfg).i = 2147483648;`, "int32 out of range (path)"},
-	{`option (o.message_cfg).i = 3000000000;`, "int32 out of range (path, < 2^32)"},
-	{`option (o.message_cfg) = { i: 4294967295 };`, "int32 out of range (literal)"},
-	{`option (o.message_cfg) = { i: -2147483649 };`, "int32 below range"},
-	{`option (o.message_cfg).f32 = 4294967296;`, "fixed32 out of range"},
-	{`option (o.message_cfg).f32 = -1;`, "negative for unsigned"},
-	{`option (o.message_cfg).u64 = -1;`, "negative for uint64"},
-	{`option (o.message_cfg).u64 = 18446744073709551616;`, "uint64 out of range"},
-	{`option (o.message_cfg).s64 = 9223372036854775808;`, "int64 out of range"},
-	{`option (o.message_cfg).i = 1.5;`, "float for int"},
-	{`option (o.message_cfg).i = "1";`, "string for int"},
-	{`option (o.message_cfg).s = 1;`, "int for string"},
-	{`option (o.message_cfg).s = abc;`, "identifier for string"},
-	{`option (o.message_cfg).flag = 1;`, "int for bool"},
-	{`option (o.message_cfg).flag = t;`, "lenient bool spelling outside a message literal"},
-	{`option (o.message_cfg).flag = True;`, "lenient bool spelling outside a message literal (True)"},
-	{`option (o.message_cfg).c = 1;`, "number for enum in option path"},
-	{`option (o.message_cfg).c = PURPLE;`, "unknown enum value"},
-	{`option (o.message_cfg) = { c: PURPLE };`, "unknown enum value in literal"},
-	{`option (o.message_cfg).d = infinity;`, "infinity spelling outside a message literal"},
-	{`option (o.message_cfg).d = INF;`, "INF spelling outside a message literal"},
-	{`option (o.message_cfg).i = 1; option (o.message_cfg).i = 2;`, "non-repeated scalar set twice"},
-	{`option (o.message_cfg) = { i: 1 i: 2 };`, "non-repeated scalar twice in literal"},
-	{`option (o.message_cfg) = { i: 1 }; option (o.message_cfg) = { s: "x" };`, "whole option set twice"},
-	{`option (o.message_cfg).oa = 1; option (o.message_cfg).ob = "x";`, "two members of a oneof (paths)"},
-	{`option (o.message_cfg) = { oa: 1 ob: "x" };`, "two members of a oneof (literal)"},
-	{`option (o.message_cfg) = { oa: 1 oc { i: 1 } };`, "two members of a oneof (scalar + message)"},
-	{`option (o.message_cfg).i.x = 1;`, "sub-field of a scalar"},
-	{`option (o.message_cfg).kids.i = 1;`, "sub-field of a repeated message via path"},
-	{`option (o.message_cfg).ri = [1, 2];`, "list syntax outside a message literal"},
-	{`option (o.message_cfg) = { i: [1] };`, "list for a non-repeated field"},
-	{`option (o.message_cfg) = { child: 1 };`, "scalar for a message field"},
-	{`option (o.message_cfg) = { i { } };`, "message for a scalar field"},
-	{`option (o.message_cfg) = { m { key: "a" value: "b" } };`, "wrong map value type"},
-	{`option (o.message_cfg) = { m { nokey: "a" } };`, "unknown field in map entry"},
-	{`option (o.message_cfg) = { any { [type.googleapis.com/o.Nope] { } } };`, "unknown Any type"},
-	{`option (o.message_cfg) = { any { [type.googleapis.com/o.Cfg] { } i: 1 } };`, "Any expansion mixed with other fields"},
-	{`option (o.message_cfg) = { child { [type.googleapis.com/o.Cfg] { } } };`, "Any expansion in a non-Any message"},
-	{`option (o.message_i) = { };`, "message literal for an int option"},
-	{`option (o.message_c) = 7;`, "number for an enum option"},
-	{`option (o.file_i) = 1;`, "file option on a message"},
-	{`option (o.nosuch) = 1;`, "unknown custom option"},
-	{`option o.message_i = 1;`, "custom option without parentheses"},
-	{`option (o.message_i).x = 1;`, "path into a scalar option"},
-	{`option (o.message_rs) = ["a", "b"];`, "list literal as a top-level option value"},
-	{`option deprecated = 1;`, "standard bool option with a number"},
-	{`option no_such_standard_option = true;`, "unknown standard option"},
-	{`option message_set_wire_format = maybe;`, "identifier that is not a bool"},
-	{`option features.field_presence = IMPLICIT;`, "features in a proto3 file"},
-	{`option (o.message_cfg) = { [o.cfg_ext]: 1 [o.cfg_ext]: 2 };`, "non-repeated extension twice in literal"},
-	{`option (o.message_cfg).(o.cfg_ext) = 1; option (o.message_cfg).(o.cfg_ext) = 2;`, "non-repeated extension twice via paths"},
+	{Stmt: `[default.foo = 1]`, Why: "'default' with a sub-field is not the pseudo-option but an unknown option", Src: "syntax = \"proto2\";\nmessage M {\n  optional int32 a = 1 [default.foo = 1];\n}\n"},
+	{Stmt: `[json_name.foo = "x"]`, Why: "'json_name' with a sub-field is not the pseudo-option but an unknown option", Src: "syntax = \"proto2\";\nmessage M {\n  optional int32 a = 1 [json_name.foo = \"x\"];\n}\n"},
+	{Stmt: `[default = 1, default.foo = 1]`, Why: "the pseudo-option next to a same-named option with a sub-field", Src: "syntax = \"proto2\";\nmessage M {\n  optional int32 a = 1 [default = 1, default.foo = 1];\n}\n"},
+	{`option (o.message_cfg).file_only.i = 1;`, "a path component restricted to files (targets) used on a message", ""},
+	{`option (o.message_cfg).child.file_only.i = 1;`, "a deeper path component restricted to files used on a message", ""},
+	{`option (o.message_cfg).(o.cfg_ext_file_only).i = 1;`, "an extension path component restricted to files used on a message", ""},
+	{`option (o.message_cfg) = { file_only { i: 1 } };`, "a literal field restricted to files used on a message", ""},
+	{`option (o.message_cfg).file_only = { i: 1 };`, "a final path component restricted to files used on a message", ""},
+	{`option (o.message_cfg) = { I: 1 };`, "field name with wrong capitalisation", ""},
+	{`option (o.message_cfg) = { S: "x" };`, "field name with wrong capitalisation (string)", ""},
+	{`option (o.message_cfg) = { G_ { gi: 1 } };`, "unknown group spelling", ""},
+	{`option (o.message_cfg) = { GRP2 { gi2: 1 } };`, "group type name in the wrong case (upper)", ""},
+	{`option (o.message_cfg) = { grP2 { gi2: 1 } };`, "group type name in the wrong case (mixed)", ""},
+	{`option (o.message_cfg) = { GrP2 { gi2: 1 } };`, "group type name in the wrong case (mixed 2)", ""},
+	{`option (o.message_cfg).G.gi = 1;`, "group named by its type name in an option path", ""},
+	{`option (o.message_cfg) = { nosuch: 1 };`, "unknown field", ""},
+	{`option (o.message_cfg) = { [o.nosuch]: 1 };`, "unknown extension in literal", ""},
+	{`option (o.message_cfg) = { [o.file_i]: 1 };`, "extension of another message in literal", ""},
+	{`option (o.message_cfg).i = 2147483648;`, "int32 out of range (path)", ""},
+	{`option (o.message_cfg).i = 3000000000;`, "int32 out of range (path, < 2^32)", ""},
+	{`option (o.message_cfg) = { i: 4294967295 };`, "int32 out of range (literal)", ""},
+	{`option (o.message_cfg) = { i: -2147483649 };`, "int32 below range", ""},
+	{`option (o.message_cfg).f32 = 4294967296;`, "fixed32 out of range", ""},
+	{`option (o.message_cfg).f32 = -1;`, "negative for unsigned", ""},
+	{`option (o.message_cfg).u64 = -1;`, "negative for uint64", ""},
+	{`option (o.message_cfg).u64 = 18446744073709551616;`, "uint64 out of range", ""},
+	{`option (o.message_cfg).s64 = 9223372036854775808;`, "int64 out of range", ""},
+	{`option (o.message_cfg).i = 1.5;`, "float for int", ""},
+	{`option (o.message_cfg).i = "1";`, "string for int", ""},
+	{`option (o.message_cfg).s = 1;`, "int for string", ""},
+	{`option (o.message_cfg).s = abc;`, "identifier for string", ""},
+	{`option (o.message_cfg).flag = 1;`, "int for bool", ""},
+	{`option (o.message_cfg).flag = t;`, "lenient bool spelling outside a message literal", ""},
+	{`option (o.message_cfg).flag = True;`, "lenient bool spelling outside a message literal (True)", ""},
+	{`option (o.message_cfg).c = 1;`, "number for enum in option path", ""},
+	{`option (o.message_cfg).c = PURPLE;`, "unknown enum value", ""},
+	{`option (o.message_cfg) = { c: PURPLE };`, "unknown enum value in literal", ""},
+	{`option (o.message_cfg).d = infinity;`, "infinity spelling outside a message literal", ""},
+	{`option (o.message_cfg).d = INF;`, "INF spelling outside a message literal", ""},
+	{`option (o.message_cfg).i = 1; option (o.message_cfg).i = 2;`, "non-repeated scalar set twice", ""},
+	{`option (o.message_cfg) = { i: 1 i: 2 };`, "non-repeated scalar twice in literal", ""},
+	{`option (o.message_cfg) = { i: 1 }; option (o.message_cfg) = { s: "x" };`, "whole option set twice", ""},
+	{`option (o.message_cfg).oa = 1; option (o.message_cfg).ob = "x";`, "two members of a oneof (paths)", ""},
+	{`option (o.message_cfg) = { oa: 1 ob: "x" };`, "two members of a oneof (literal)", ""},
+	{`option (o.message_cfg) = { oa: 1 oc { i: 1 } };`, "two members of a oneof (scalar + message)", ""},
+	{`option (o.message_cfg).i.x = 1;`, "sub-field of a scalar", ""},
+	{`option (o.message_cfg).kids.i = 1;`, "sub-field of a repeated message via path", ""},
+	{`option (o.message_cfg).ri = [1, 2];`, "list syntax outside a message literal", ""},
+	{`option (o.message_cfg) = { i: [1] };`, "list for a non-repeated field", ""},
+	{`option (o.message_cfg) = { child: 1 };`, "scalar for a message field", ""},
+	{`option (o.message_cfg) = { i { } };`, "message for a scalar field", ""},
+	{`option (o.message_cfg) = { m { key: "a" value: "b" } };`, "wrong map value type", ""},
+	{`option (o.message_cfg) = { m { nokey: "a" } };`, "unknown field in map entry", ""},
+	{`option (o.message_cfg) = { any { [type.googleapis.com/o.Nope] { } } };`, "unknown Any type", ""},
+	{`option (o.message_cfg) = { any { [type.googleapis.com/o.Cfg] { } i: 1 } };`, "Any expansion mixed with other fields", ""},
+	{`option (o.message_cfg) = { child { [type.googleapis.com/o.Cfg] { } } };`, "Any expansion in a non-Any message", ""},
+	{`option (o.message_i) = { };`, "message literal for an int option", ""},
+	{`option (o.message_c) = 7;`, "number for an enum option", ""},
+	{`option (o.file_i) = 1;`, "file option on a message", ""},
+	{`option (o.nosuch) = 1;`, "unknown custom option", ""},
+	{`option o.message_i = 1;`, "custom option without parentheses", ""},
+	{`option (o.message_i).x = 1;`, "path into a scalar option", ""},
+	{`option (o.message_rs) = ["a", "b"];`, "list literal as a top-level option value", ""},
+	{`option deprecated = 1;`, "standard bool option with a number", ""},
+	{`option no_such_standard_option = true;`, "unknown standard option", ""},
+	{`option message_set_wire_format = maybe;`, "identifier that is not a bool", ""},
+	{`option features.field_presence = IMPLICIT;`, "features in a proto3 file", ""},
+	{`option (o.message_cfg) = { [o.cfg_ext]: 1 [o.cfg_ext]: 2 };`, "non-repeated extension twice in literal", ""},
+	{`option (o.message_cfg).(o.cfg_ext) = 1; option (o.message_cfg).(o.cfg_ext) = 2;`, "non-repeated extension twice via paths", ""},
 }
 
 func c20RejectCheck(c c20Reject, r *ev.Rec) error {
 	for _, placement := range []string{"message", "field"} {
 		stmt := c.Stmt
 		var src string
+		if c.Src != "" {
+			if placement == "field" {
+				continue
+			}
+			placement = "whole-file"
+			src = c.Src
+		}
 		switch placement {
+		case "whole-file":
 		case "message":
 			src = "syntax = \"proto3\";\nimport \"o/opts.proto\";\nmessage M {\n  " + stmt + "\n  int32 x = 1;\n}\n"
 		default:
@@ -422,7 +434,7 @@ func TestC20_Rejects(t *testing.T) {
 		t.Fatalf("control file rejected: %v", err)
 	}
 	ev.RunEnum(t, ev.Spec[c20Reject]{ID: "C20", Name: "Rejects",
-		Rule:  "a fixed list of 60 invalid option statements over the same schema (wrong field/group spellings, unknown names, type mismatches, integer range boundaries for every width, lenient spellings outside message literals, scalar/option/extension set twice, two oneof members, sub-field of a scalar or repeated field, list misuse, bad map entries, bad Any expansions, wrong target, malformed names), each placed as a message option and where possible as a compact field option; oracle: compilation fails with a reported error, not with a recovered panic; a control file with the corresponding valid spellings must compile; every case non-trivial",
+		Rule:  "a fixed list of 63 invalid option statements over the same schema (wrong field/group spellings, unknown names, type mismatches, integer range boundaries for every width, lenient spellings outside message literals, scalar/option/extension set twice, two oneof members, sub-field of a scalar or repeated field, list misuse, bad map entries, bad Any expansions, wrong target, malformed names, the field pseudo-options default/json_name with a sub-field), each placed as a message option and where possible as a compact field option; oracle: compilation fails with a reported error, not with a recovered panic; a control file with the corresponding valid spellings must compile; every case non-trivial",
 		Check: c20RejectCheck}, true, func(yield func(c20Reject) bool) {
 		for _, c := range c20Rejects {
 			if !yield(c) {
